@@ -224,7 +224,7 @@ func (fr *Frame) reassertConstStrings(st *State) {
 		return
 	}
 	hn := elemHeap(types.Typ[types.Uint8], "")
-	srt := ArrSort(SInt, ArrSort(SBV64, SBV8))
+	srt := byteHeapSort
 	h0 := fr.top.entryHeap(hn, srt)
 	h := fr.heap(st, hn, srt)
 	if h.S == h0.S {
@@ -333,23 +333,23 @@ func (fr *Frame) execBuiltin(st *State, b *ssa.Builtin, cc *ssa.CallCommon, inst
 		case *types.Basic:
 			return []Val{scalar(intT, v.Len())}
 		case *types.Array:
-			return []Val{scalar(intT, BV(u.Len(), 64))}
+			return []Val{scalar(intT, IntT(u.Len()))}
 		case *types.Pointer:
 			at := u.Elem().Underlying().(*types.Array)
-			return []Val{scalar(intT, BV(at.Len(), 64))}
+			return []Val{scalar(intT, IntT(at.Len()))}
 		case *types.Map:
-			n := fr.ctx.Fresh("maplen", SBV64)
-			fr.assume(st, BVCmp("bvsle", BV(0, 64), n))
+			n := fr.ctx.Fresh("maplen", SInt)
+			fr.assume(st, And(ILe(IntT(0), n), ILe(n, IntT(maxObj))))
 			return []Val{scalar(intT, n)}
 		case *types.Chan:
-			n := fr.ctx.Fresh("chanlen", SBV64)
-			fr.assume(st, BVCmp("bvsle", BV(0, 64), n))
+			n := fr.ctx.Fresh("chanlen", SInt)
+			fr.assume(st, And(ILe(IntT(0), n), ILe(n, IntT(maxObj))))
 			return []Val{scalar(intT, n)}
 		}
 	case "copy":
 		dst, src := arg(0), arg(1)
 		et := cc.Args[0].Type().Underlying().(*types.Slice).Elem()
-		n := Ite(BVCmp("bvsle", dst.Len(), src.Len()), dst.Len(), src.Len())
+		n := Ite(ILe(dst.Len(), src.Len()), dst.Len(), src.Len())
 		n = fr.ctx.Def("n", n)
 		fr.copyRange(st, dst.Obj(), dst.Off(), src.Obj(), src.Off(), n, et)
 		return []Val{scalar(intT, n)}
@@ -366,11 +366,16 @@ func (fr *Frame) execBuiltin(st *State, b *ssa.Builtin, cc *ssa.CallCommon, inst
 		return nil
 	case "min", "max":
 		a, c := arg(0), arg(1)
-		op := "bvule"
-		if isSigned(cc.Args[0].Type()) {
-			op = "bvsle"
+		var le Term
+		if isWide(cc.Args[0].Type()) {
+			le = ILe(a.Term(), c.Term())
+		} else {
+			op := "bvule"
+			if isSigned(cc.Args[0].Type()) {
+				op = "bvsle"
+			}
+			le = BVCmp(op, a.Term(), c.Term())
 		}
-		le := BVCmp(op, a.Term(), c.Term())
 		if b.Name() == "min" {
 			return []Val{scalar(cc.Args[0].Type(), Ite(le, a.Term(), c.Term()))}
 		}
@@ -405,20 +410,14 @@ func (fr *Frame) zeroRange(st *State, obj, off, n Term, et types.Type) {
 	for k, c := range l {
 		old := fr.ctx.Def("old", fr.objArray(st, obj, et, k))
 		na := fr.ctx.Fresh("clr", old.Sort)
-		j := Term{"j!cl", SBV64}
-		inr := And(BVCmp("bvsle", off, j), BVCmp("bvslt", j, BVOp("bvadd", off, n)))
+		j := Term{"j!cl", SInt}
+		inr := InRange(j, off, IAdd(off, n))
 		fr.assume(st, Forall([]Term{j}, Eq(Select(na, j), Ite(inr, c.Zero, Select(old, j))), Select(na, j)))
 		fr.setObjArray(st, obj, et, k, na)
 	}
 }
 
-func constLen(t Term) (int64, bool) {
-	var v int64
-	if _, err := fmt.Sscanf(t.S, "(_ bv%d 64)", &v); err == nil {
-		return v, true
-	}
-	return 0, false
-}
+func constLen(t Term) (int64, bool) { return isIntLit(t) }
 
 func (fr *Frame) execAppend(st *State, cc *ssa.CallCommon, pos token.Pos) Val {
 	s := fr.val(st, cc.Args[0])
@@ -427,23 +426,23 @@ func (fr *Frame) execAppend(st *State, cc *ssa.CallCommon, pos token.Pos) Val {
 	et := st0T.Underlying().(*types.Slice).Elem()
 	// append([]byte, string...) has a string second argument
 	n := e.Len()
-	newLen := fr.ctx.Def("nlen", BVOp("bvadd", s.Len(), n))
-	fits := fr.ctx.Def("fits", BVCmp("bvsle", newLen, s.Cap()))
+	newLen := fr.ctx.Def("nlen", IAdd(s.Len(), n))
+	fits := fr.ctx.Def("fits", ILe(newLen, s.Cap()))
 	// in-place branch
 	stIn := st.clone()
 	stIn.pc = fr.ctx.Def("pc", And(st.pc, fits))
-	fr.copyAppend(stIn, s.Obj(), BVOp("bvadd", s.Off(), s.Len()), e, n, et)
+	fr.copyAppend(stIn, s.Obj(), IAdd(s.Off(), s.Len()), e, n, et)
 	inPlace := mkSlice(st0T, s.Obj(), s.Off(), newLen, s.Cap())
 	// grow branch
 	stGr := st.clone()
 	stGr.pc = fr.ctx.Def("pc", And(st.pc, Not(fits)))
 	obj := fr.newObject(stGr, "grow")
-	ncap := fr.ctx.Fresh("ncap", SBV64)
-	fr.assume(stGr, And(BVCmp("bvsle", newLen, ncap), BVCmp("bvsle", ncap, BV(maxObj, 64))))
+	ncap := fr.ctx.Fresh("ncap", SInt)
+	fr.assume(stGr, And(ILe(newLen, ncap), ILe(ncap, IntT(maxObj))))
 	// copy old prefix then the new elements
-	fr.copyInto(stGr, obj, BV(0, 64), s.Obj(), s.Off(), s.Len(), et)
+	fr.copyInto(stGr, obj, IntT(0), s.Obj(), s.Off(), s.Len(), et)
 	fr.copyAppend(stGr, obj, s.Len(), e, n, et)
-	grown := mkSlice(st0T, obj, BV(0, 64), newLen, ncap)
+	grown := mkSlice(st0T, obj, IntT(0), newLen, ncap)
 	pc := st.pc
 	m := fr.mergeStates([]*State{stIn, stGr})
 	*st = *m
@@ -456,8 +455,8 @@ func (fr *Frame) execAppend(st *State, cc *ssa.CallCommon, pos token.Pos) Val {
 func (fr *Frame) copyAppend(st *State, obj, at Term, e Val, n Term, et types.Type) {
 	if c, ok := constLen(n); ok && c <= 8 {
 		for i := int64(0); i < c; i++ {
-			v := fr.loadElem(st, e.Obj(), BVOp("bvadd", e.Off(), BV(i, 64)), et, 0, -1, et)
-			fr.storeElem(st, obj, BVOp("bvadd", at, BV(i, 64)), et, 0, -1, v)
+			v := fr.loadElem(st, e.Obj(), IAdd(e.Off(), IntT(i)), et, 0, -1, et)
+			fr.storeElem(st, obj, IAdd(at, IntT(i)), et, 0, -1, v)
 		}
 		return
 	}
